@@ -14,6 +14,13 @@ type fakeConn struct {
 	in      []byte
 	closed  bool
 	closeCh chan struct{}
+	broken  bool // every Write fails (peer reset)
+}
+
+func (c *fakeConn) breakWrites() {
+	c.mu.Lock()
+	c.broken = true
+	c.mu.Unlock()
 }
 
 func newFakeConn(in []byte) *fakeConn {
@@ -36,6 +43,9 @@ func (c *fakeConn) Read(b []byte) (int, error) {
 func (c *fakeConn) Write(b []byte) (int, error) {
 	c.mu.Lock()
 	defer c.mu.Unlock()
+	if c.broken {
+		return 0, io.ErrClosedPipe
+	}
 	cp := make([]byte, len(b))
 	copy(cp, b)
 	c.writes = append(c.writes, cp)
